@@ -110,25 +110,32 @@ def vacuity_probe(unit_name, rl):
 
 
 def second_opinion(unit_name, rl):
-    """a function that fails under Verus' default loop isolation is verified once more with `loop_isolation(false)` (every loop sees the
-    facts established before it: e.g. the defining equation of a `let` hoisted out of a loop by a harmless refactoring).  Both modes are
-    sound, so a function that verifies COMPLETELY in the second mode holds its contract; only a function that fails in both is reported.
-    Returns the set of function names with any failure in the second run, or None if that run could not be made."""
+    """a function that fails in the first run is verified again in two other SOUND configurations before anything is concluded from the failure:
+      (a) `loop_isolation(false)` on every function (every loop sees the facts established before it: e.g. the defining equation of a `let`
+          hoisted out of a loop by a harmless refactoring),
+      (b) the same text with another solver seed and three times the resource limit (proofs that were found by luck).
+    A function that verifies COMPLETELY in either configuration holds its contract; only a function that fails in all of them is reported.
+    Returns the set of function names failing in every available extra run, or None if no extra run could be made."""
     import subprocess
-    code = ('import sys, json; sys.path.insert(0, %r); sys.path.insert(0, %r); import importlib, verus; m = importlib.import_module(%r); u = m.build(); '
-            'p, meta = u.write(%r); r = verus.run(p, rlimit=%r); verus.attribute(r, meta); '
-            'print(json.dumps(dict(fe=r["front_end_error"], failed=sorted({(d.get("function") or "?") for d in r["diags"]}))))'
-            % (HERE, os.path.join(HERE, 'units'), unit_name, os.path.join(os.environ.get('VERIF_GEN_DIR') or os.path.join(VERIF, '.cache'), 'second_opinion'), rl))
-    env = dict(os.environ, VERIF_NO_LOOP_ISOLATION='1')
-    env.pop('VERIF_VACUITY', None)
-    try:
-        p = subprocess.run([sys.executable, '-c', code], env=env, capture_output=True, text=True, timeout=1200)
-        d = json.loads(p.stdout.strip().split('\n')[-1])
-    except Exception:
+    base = os.environ.get('VERIF_GEN_DIR') or os.path.join(VERIF, '.cache')
+    results = []
+    for tag, env_extra, kw in (('noiso', dict(VERIF_NO_LOOP_ISOLATION='1'), 'rlimit=%r' % rl), ('seed', {}, 'rlimit=%r, seed=7' % ((rl or 10) * 3))):
+        code = ('import sys, json; sys.path.insert(0, %r); sys.path.insert(0, %r); import importlib, verus; m = importlib.import_module(%r); u = m.build(); '
+                'p, meta = u.write(%r); r = verus.run(p, %s); verus.attribute(r, meta); '
+                'print(json.dumps(dict(fe=r["front_end_error"], failed=sorted({(d.get("function") or "?") for d in r["diags"]}))))'
+                % (HERE, os.path.join(HERE, 'units'), unit_name, os.path.join(base, 'second_opinion_' + tag), kw))
+        env = dict(os.environ, **env_extra)
+        env.pop('VERIF_VACUITY', None)
+        try:
+            p = subprocess.run([sys.executable, '-c', code], env=env, capture_output=True, text=True, timeout=1500)
+            d = json.loads(p.stdout.strip().split('\n')[-1])
+        except Exception:
+            continue
+        if not d['fe']:
+            results.append(set(x.split('::')[-1] for x in d['failed']))
+    if not results:
         return None
-    if d['fe']:
-        return None
-    return set(d['failed'])
+    return set.intersection(*results)
 
 
 def fn_range(meta, qname, line):
@@ -258,14 +265,14 @@ def main(argv):
                         ov = (q, o)
                         if q == fn:
                             break
-            if fn and d['kind'] != 'resource':
+            if fn:
                 # second opinion: does the function fail with loop_isolation(false) too?  (lazy: one extra run per failing unit)
                 if un not in second:
                     second[un] = second_opinion(un, getattr(importlib.import_module(un), 'RLIMIT', None))
                 if second[un] is not None and fn not in second[un] and fn.split('::')[-1] not in {x.split('::')[-1] for x in second[un]}:
                     # the whole function verifies in that mode: the failure was an artefact of loop isolation (e.g. a `let` hoisted out of a
                     # loop lost its defining equation), not of the code
-                    notes.append('%s: %s failed under loop isolation (%s: %s) but verifies completely with loop_isolation(false): discharged'
+                    notes.append('%s: %s failed in the first run (%s: %s) but verifies completely in another sound configuration (loop_isolation(false) / other seed, 3x rlimit): discharged'
                                  % (un, fn, d['kind'], ','.join(d['tags']) or 'untagged'))
                     continue
             if d['kind'] == 'resource':
